@@ -64,7 +64,12 @@ def state_file(b, var, writes, extra_ctor_assign=None):
     fparts, lparts = [], []
     if extra_ctor_assign is not None:
         rhs = {'value': b.num(7), 'string': b.string('s'), 'abi': b.call(b.member(b.var('abi'), 'encode'), [b.num(1)]),
-               'bytes': b.call(b.ty('DynamicBytes'), [b.string('s')])}[extra_ctor_assign]
+               'bytes': b.call(b.ty('DynamicBytes'), [b.string('s')]),
+               # value-typed right-hand sides that are spelled as conversions
+               'bytes32_cast': b.call(b.ty('Bytes', 32), [b.var('seed')]), 'bytes4_cast': b.call(b.ty('Bytes', 4), [b.call(b.var('keccak256'), [b.string('f()')])]),
+               'uint_cast': b.call(b.ty('Uint', 128), [b.var('seed')]), 'address_cast': b.call(b.ty('Address'), [b.num(0)]),
+               'payable_cast': b.call(b.ty('Payable'), [b.member(b.var('msg'), 'sender')]), 'bool_value': b.var('flag'),
+               'sum': b.bin('Add', b.var('seed'), b.num(1)), 'member': b.member(b.var('msg'), 'sender')}[extra_ctor_assign]
         cparts.append(b.function('Constructor', None, [], [], b.block([b.expr_stmt(b.bin('Assign', b.var('x'), rhs))])))
     for (member, pos, form, tkind) in writes:
         w = write_expr(b, form, tkind, 'x')
@@ -136,7 +141,7 @@ def all_cases(chk):
     pos_q = QUICK_STMT_POS
     # no write at all, per variable kind, with and without a constructor assignment
     for var in VAR_KINDS:
-        for ctor in (None, 'value', 'string', 'abi', 'bytes'):
+        for ctor in (None, 'value', 'string', 'abi', 'bytes', 'bytes32_cast', 'bytes4_cast', 'uint_cast', 'address_cast', 'payable_cast', 'bool_value', 'sum', 'member'):
             out.append(('x:%s no write, ctor=%s' % (var[:2], ctor), lambda b, v=var, c=ctor: state_file(b, v, [], c)))
     # one write: form x target kind x member x position
     for form in WRITE_BIN + WRITE_UN:
@@ -194,7 +199,7 @@ def body(chk):
     n = len(all_cases(chk))
     idx = list(range(n))
     if chk.quick and n > 900:
-        core = [i for i, (l, _) in enumerate(all_cases(chk)) if l.startswith(('two params', 'two functions'))]
+        core = [i for i, (l, _) in enumerate(all_cases(chk)) if l.startswith(('two params', 'two functions')) or ('no write, ctor=' in l and l.startswith('x:ui'))]
         chk.rng.shuffle(idx)
         idx = sorted(set(idx[:900]) | set(core))
     chk.bounds = {'files': '%d of %d x 4 detectors' % (len(idx), n),
